@@ -2,11 +2,13 @@ import Rangers.Basic.Hex
 import Rangers.Basic.Line
 import Rangers.Basic.Keccak
 import Rangers.Model.Trie
+import Rangers.Model.TrieStore
 /-
 C02 line-protocol driver.  State = the model trie (`Trie.Node`).
   new | upd k v | del k | get k | hash | commit | reopen | dbcommit | cachelimit n | iter start | keccak x
-`commit`, `reopen`, `dbcommit`, `cachelimit` do not touch the model state: that they are
-no-ops on content is exactly what the correspondence run checks of the implementation.
+`commit` and `cachelimit` do not touch the model state; `reopen`/`dbcommit` run the model's
+commit-and-reload (`Trie.reload`).  That all four are no-ops on content in the implementation
+is what the correspondence run checks.
 -/
 namespace Rangers.Drive.C02
 open Rangers Rangers.Trie
@@ -17,6 +19,13 @@ def showRoot (t : Node) : String := toHex (rootHash H t)
 
 def showIter (l : List (Bytes × Bytes)) : String :=
   "n=" ++ toString l.length ++ String.join (l.map (fun e => " " ++ toHex e.1 ++ ":" ++ toHex e.2))
+
+/-- `Commit` + `NewTrie(root, db)`: the model collapses the trie into store entries and expands
+    the root hash again (`Trie.reload`); by `Props.C02.expand_collapse` this is the identity. -/
+def reopen (t : Node) : Node × String :=
+  match reload H t with
+  | some t' => (t', showRoot t')
+  | none => (t, "model-reload-failed")
 
 def step (t : Node) (line : String) : Node × String :=
   match splitWords line with
@@ -35,8 +44,8 @@ def step (t : Node) (line : String) : Node × String :=
     | none => (t, "bad-op")
   | ["hash"] => (t, showRoot t)
   | ["commit"] => (t, showRoot t)
-  | ["reopen"] => (t, showRoot t)
-  | ["dbcommit"] => (t, showRoot t)
+  | ["reopen"] => reopen t
+  | ["dbcommit"] => reopen t
   | ["cachelimit", n] =>
     match n.toNat? with
     | some n => if n < 65536 then (t, "ok") else (t, "bad-op")
